@@ -334,7 +334,7 @@ def make_roundtrip(oid, fmt, n_max, xyz_source=False, other_first=False, tiers=(
                              f" over {N_NODE} nodes with symbolic positions; symbolic history flags {list(flags)} (2^{len(flags)} materialisation sets)",
                       stubs=["NetCDF write/read = identity on datasets whose attribute values are storable (replays go through real files)",
                              "trig / products uninterpreted (positions compared as terms)"] + (["face_areas: arbitrary positive reals (C05)"] if fmt == "scrip" else []),
-                      max_paths=20000, timeout_s=1500, tiers=tiers, cost=cost)
+                      max_paths=20000, timeout_s=6000 if cost >= 100 else 1500, tiers=tiers, cost=cost)
 
 
 FIXED2 = [[2, 1, 0, F, F], [1, 2, 3, 4, 5], [0, 1, 5, 4, F], [3, 2, 0, F, F]]     # three different sizes, 3 / 5 / 4 / 3
